@@ -66,7 +66,34 @@ func main() {
 	}
 	caPath := filepath.Join(outdir, "ca.pem")
 	os.WriteFile(caPath, pem.EncodeToMemory(&pem.Block{Type: "CERTIFICATE", Bytes: caDER}), 0o644)
-	fs := http.FileServer(http.Dir(dir))
+	plain := http.FileServer(http.Dir(dir))
+	// paths below /trunc/ are served with the full Content-Length of the file but only the first half of its bytes, after which the
+	// connection is closed: a transfer that dies midway (flaky proxy, reset connection)
+	fs := http.HandlerFunc(func(w http.ResponseWriter, req *http.Request) {
+		const pfx = "/trunc/"
+		if len(req.URL.Path) <= len(pfx) || req.URL.Path[:len(pfx)] != pfx {
+			plain.ServeHTTP(w, req)
+			return
+		}
+		data, err := os.ReadFile(filepath.Join(dir, filepath.FromSlash(req.URL.Path[len(pfx):])))
+		if err != nil {
+			http.NotFound(w, req)
+			return
+		}
+		hj, ok := w.(http.Hijacker)
+		if !ok {
+			http.Error(w, "no hijack", 500)
+			return
+		}
+		conn, buf, err := hj.Hijack()
+		if err != nil {
+			return
+		}
+		fmt.Fprintf(buf, "HTTP/1.1 200 OK\r\nContent-Type: text/plain\r\nContent-Length: %d\r\n\r\n", len(data))
+		buf.Write(data[:len(data)/2])
+		buf.Flush()
+		conn.Close()
+	})
 	l1, err := net.Listen("tcp", "127.0.0.1:0")
 	if err != nil {
 		panic(err)
